@@ -651,6 +651,9 @@ func unop(fr *frame, instr *ssa.UnOp, x Val) Val {
 			return fromBV(mkNeg(x), w, signed)
 		}
 	case token.MUL:
+		if r, isRef := x.(elemRef); isRef {
+			return loadRef(r)
+		}
 		p, ok := x.(*Val)
 		if !ok {
 			unsupported(fmt.Sprintf("load through %T (%s)", x, fr.fn))
@@ -884,8 +887,125 @@ func indexAddr(fr *frame, instr *ssa.IndexAddr) Val {
 	default:
 		unsupported(fmt.Sprintf("IndexAddr on %T", x))
 	}
+	// symbolic index into an array/slice of scalars: defer the choice of the
+	// element (a load becomes one table/ite term instead of len(arr) forks)
+	if _, isC := idx.(int64); !isC && len(arr) > 1 && allScalar(arr) {
+		t := boundsOnly(fr, instr, idx, instr.Index.Type(), len(arr))
+		return elemRef{arr: arr, idx: t, et: instr.Type().Underlying().(*types.Pointer).Elem()}
+	}
 	i := boundsIndex(fr, instr, idx, instr.Index.Type(), len(arr))
 	return &arr[i]
+}
+
+// elemRef is the address of arr[idx] for a symbolic, in-bounds idx (64-bit term
+// or Int term).
+type elemRef struct {
+	arr []Val
+	idx *Term
+	et  types.Type
+}
+
+func allScalar(arr []Val) bool {
+	for _, e := range arr {
+		switch e.(type) {
+		case int64, bool, *Term:
+		default:
+			return false
+		}
+	}
+	return true
+}
+
+// boundsOnly performs the bounds check (fault path forked) and returns the
+// index as a term without concretising it.
+func boundsOnly(fr *frame, instr ssa.Instruction, idx Val, it types.Type, n int) *Term {
+	if isIntTerm(idx) {
+		t := idx.(*Term)
+		ok := mkAnd(mkICmp(OILe, mkInt64(0), t), mkICmp(OILt, t, mkInt64(int64(n))))
+		if !in.ex.branch(in.path, ok) {
+			fr.fault(instr, "index", fmt.Sprintf("index out of range [sym] with length %d", n))
+		}
+		return t
+	}
+	t := widen64(idx, it)
+	if !in.ex.branch(in.path, mkCmp(OUlt, t, mkBV(uint64(n), 64))) {
+		fr.fault(instr, "index", fmt.Sprintf("index out of range [sym] with length %d", n))
+	}
+	return t
+}
+
+// loadRef reads through an elemRef: a table term for constant integer arrays,
+// an ite chain otherwise.
+func loadRef(r elemRef) Val {
+	w, signed, isInt := intInfo(r.et)
+	idxEq := func(i int) *Term {
+		if r.idx.sort.K == KInt {
+			return mkEq(r.idx, mkInt64(int64(i)))
+		}
+		return mkEq(r.idx, mkBV(uint64(i), 64))
+	}
+	if isInt {
+		allC := true
+		for _, e := range r.arr {
+			if _, ok := e.(int64); !ok {
+				allC = false
+				break
+			}
+		}
+		if allC && r.idx.sort.K == KBV {
+			vals := make([]uint64, len(r.arr))
+			for i, e := range r.arr {
+				vals[i] = uint64(e.(int64)) & mask(w)
+			}
+			return fromBV(mkTbl(mkTable(vals, w), r.idx), w, signed)
+		}
+		if anyIntTerm(r.arr) || r.idx.sort.K == KInt && in.intMode {
+			res := toIntTerm(r.arr[len(r.arr)-1], w, signed)
+			for i := len(r.arr) - 2; i >= 0; i-- {
+				res = mkIte(idxEq(i), toIntTerm(r.arr[i], w, signed), res)
+			}
+			return fromInt(res, w, signed)
+		}
+		res := toBV(r.arr[len(r.arr)-1], w)
+		for i := len(r.arr) - 2; i >= 0; i-- {
+			res = mkIte(idxEq(i), toBV(r.arr[i], w), res)
+		}
+		return fromBV(res, w, signed)
+	}
+	if isBoolT(r.et) {
+		res := toBoolTerm(r.arr[len(r.arr)-1])
+		for i := len(r.arr) - 2; i >= 0; i-- {
+			res = mkIte(idxEq(i), toBoolTerm(r.arr[i]), res)
+		}
+		return fromBoolTerm(res)
+	}
+	return load(resolveRef(r))
+}
+
+func anyIntTerm(arr []Val) bool {
+	for _, e := range arr {
+		if isIntTerm(e) {
+			return true
+		}
+	}
+	return false
+}
+
+// resolveRef forks on the index to obtain a real cell address.
+func resolveRef(r elemRef) *Val {
+	i := concretize(r.idx, 64, 0, int64(len(r.arr)-1))
+	return &r.arr[i]
+}
+
+// asPtr converts an address value to a cell pointer (forking for elemRef).
+func asPtr(v Val) (*Val, bool) {
+	switch p := v.(type) {
+	case *Val:
+		return p, true
+	case elemRef:
+		return resolveRef(p), true
+	}
+	return nil, false
 }
 
 // widen64 extends an index value to a 64-bit term per its static type.
